@@ -50,6 +50,7 @@ type c18Case struct {
 	offset time.Duration // expiry - now at build time
 	enc    int           // 0 form 1 redirect 2 request-GET 3 request-POST
 	method string
+	iiKind string // "" = IssueInstant placed by offset/delay; otherwise the attribute is absent / empty / an instant centuries ago (all stale)
 }
 
 // sub is the second-level status code nested under the top-level one in this case ("" = none). Only the top-level code
@@ -62,7 +63,7 @@ func (k c18Case) sub() string {
 }
 
 func (k c18Case) String() string {
-	return fmt.Sprintf("trust=%s signer=%s dest=%s issuer=%s status=%s"+map[bool]string{true: "+sub:" + k.sub()[strings.LastIndex(k.sub(), ":")+1:], false: ""}[k.sub() != ""]+" D=%v expiry-offset=%v enc=%d method=%s", k.trust.Name, k.signer, k.dest.kind, k.issuer.kind, k.status.kind, k.delay, k.offset, k.enc, shortAlg(k.method))
+	return fmt.Sprintf("trust=%s signer=%s dest=%s issuer=%s status=%s"+map[bool]string{true: "+sub:" + k.sub()[strings.LastIndex(k.sub(), ":")+1:], false: ""}[k.sub() != ""]+" D=%v expiry-offset=%v enc=%d method=%s"+map[bool]string{true: " IssueInstant=" + k.iiKind, false: ""}[k.iiKind != ""], k.trust.Name, k.signer, k.dest.kind, k.issuer.kind, k.status.kind, k.delay, k.offset, k.enc, shortAlg(k.method))
 }
 
 func c18MakeEvil(el *etree.Element) {
@@ -158,6 +159,16 @@ func runC18(c *core.Ctx) {
 					k.delay, k.offset = d, off
 					c18Run(c, o, sps, actx, k, 0)
 				}
+			}
+		}
+	}
+	// IssueInstant missing, empty or centuries old: stale whatever MaxIssueDelay is
+	for _, ii := range []string{"absent", "empty", "0001-01-01T00:00:00Z", "1000-06-01T12:00:00Z", "1700-01-01T00:00:00Z", "1733-12-31T23:59:59Z", "1970-01-01T00:00:00Z", "1601-01-01T00:00:00Z"} {
+		for r := 0; r < c.Pick(6, 60); r++ {
+			if mine() {
+				k := base()
+				k.iiKind = ii
+				c18Run(c, o, sps, actx, k, 0)
 			}
 		}
 	}
@@ -265,6 +276,19 @@ func c18Build(o *so.Oracle, k c18Case) ([]byte, time.Time, error) {
 			el.FindElement("./Status/StatusCode").CreateElement("samlp:StatusCode").CreateAttr("Value", sub)
 		}
 	}
+	expiry := issue.Add(k.delay)
+	switch k.iiKind {
+	case "":
+	case "absent":
+		el.RemoveAttr("IssueInstant")
+		expiry = time.Time{}
+	case "empty":
+		el.CreateAttr("IssueInstant", "")
+		expiry = time.Time{}
+	default:
+		el.CreateAttr("IssueInstant", k.iiKind)
+		expiry = time.Time{}
+	}
 	if k.signer != "" {
 		s, err := o.Sign(el, fx.K(k.signer), k.method)
 		if err != nil {
@@ -272,7 +296,7 @@ func c18Build(o *so.Oracle, k c18Case) ([]byte, time.Time, error) {
 		}
 		el = s
 	}
-	return so.Bytes(el), issue.Add(k.delay), nil
+	return so.Bytes(el), expiry, nil
 }
 
 func c18Call(sp *saml.ServiceProvider, raw []byte, enc int) error {
@@ -340,6 +364,18 @@ func c18Run(c *core.Ctx, o *so.Oracle, sps map[string]*saml.ServiceProvider, act
 	c.Journal("C18 " + desc + "\n" + string(trunc(doc, 8000)))
 	sp := sps[k.trust.Name]
 	var verr error
+	if (k.enc == 1 || k.enc == 2) && c.Rng.Intn(3) == 0 {
+		// just before: a genuine, valid, trusted-signed response whose DEFLATE stream is cut short (flushed, no final block,
+		// or simply truncated) arrives at the same SP; whatever it leaves behind must not colour the next message
+		g := k
+		g.signer, g.dest, g.issuer, g.status, g.iiKind = k.trust.Roots[0], fieldVal{kind: "correct", val: so.SPSLO}, fieldVal{kind: "correct", val: so.IDPEntity}, fieldVal{kind: "correct", val: saml.StatusSuccess}, ""
+		if graw, _, gerr := c18Build(o, g); gerr == nil {
+			for _, cut := range [][]byte{so.DeflateNoFinal(graw), so.Deflate(graw)[:len(so.Deflate(graw))-3]} {
+				_, _, _, _ = core.Guard(func() { _ = sp.ValidateLogoutResponseRedirect(base64.StdEncoding.EncodeToString(cut)) })
+			}
+			c.Count("truncated_genuine_deflate_streams_delivered_first")
+		}
+	}
 	t0 := time.Now()
 	p, pv, frame, _ := core.Guard(func() { verr = c18Call(sp, doc, k.enc) })
 	t1 := time.Now()
